@@ -400,6 +400,12 @@ class TermAlg:
         # f"{x}" of a single value: a canonical text of that value (enough for the equality tests the parser uses)
         if len(e.values) == 1 and isinstance(e.values[0], ast.FormattedValue) and e.values[0].format_spec is None:
             return ("str", self.text_of(self.eval(e.values[0].value, env)))
+        if len(e.values) == 1 and isinstance(e.values[0], ast.FormattedValue):
+            fs = e.values[0].format_spec
+            v = self.eval(e.values[0].value, env)
+            if isinstance(v, Rat) and v.as_const() is not None and isinstance(fs, ast.JoinedStr) and len(fs.values) == 1 and isinstance(fs.values[0], ast.Constant):
+                # a literal format applied to a literal number: constant folding
+                return ("str", format(float(v.as_const()), fs.values[0].value))
         return ("str", "?")
 
     def text_of(self, v) -> str:
@@ -426,6 +432,9 @@ class TermAlg:
         if isinstance(v, Key):
             return v.name
         return "?"
+
+    def x_Lambda(self, e, env):
+        return ("lambda", e)
 
     def x_UnaryOp(self, e, env):
         v = self.eval(e.operand, env)
@@ -465,8 +474,15 @@ class TermAlg:
             return ListV(l.items + r.items)
         if isinstance(l, Rec) and isinstance(r, Rec) and isinstance(op, ast.Add):
             return self.method(l, "__add__", [r])
+        if isinstance(l, tuple) and l and l[0] == "str" and isinstance(r, tuple) and r and r[0] == "str" and isinstance(op, ast.Add):
+            return ("str", l[1] + r[1])
         if isinstance(l, tuple) and l and l[0] == "str":
             return ("str", "?")
+        if isinstance(l, bool) and isinstance(r, bool):
+            if isinstance(op, ast.BitAnd):
+                return l and r
+            if isinstance(op, ast.BitOr):
+                return l or r
         raise AnalysisError("arithmetic %s outside the kernel fragment in %s" % (norm(node), self.fstack[-1].key))
 
     def x_Compare(self, e, env):
@@ -559,6 +575,12 @@ class TermAlg:
         f = self.eval(e.func, env) if not (isinstance(e.func, ast.Attribute) and norm(e.func).startswith("logging.")) else ("ignore",)
         if f == ("ignore",):
             return NONE
+        if isinstance(f, tuple) and f == ("builtin", "isinstance") and len(e.args) == 2:
+            root = e.args[1]
+            while isinstance(root, ast.Attribute):
+                root = root.value
+            if isinstance(root, ast.Name) and isinstance(e.args[1], ast.Attribute) and self.fstack and root.id in self.fstack[-1].module.imports and not self.fstack[-1].module.imports[root.id].startswith("pacti"):
+                return False  # a third-party type (sympy Float, pp.ParseResults): our symbolic values are not instances of it
         pos = [self.eval(a, env) for a in e.args]
         kw = {k.arg: self.eval(k.value, env) for k in e.keywords}
         if isinstance(f, FuncInfo):
@@ -602,11 +624,26 @@ class TermAlg:
                     return NONE
                 if name == "copy":
                     return ListV(l.items)
+                if name == "remove":
+                    for i_, x_ in enumerate(l.items):
+                        if x_ is pos[0]:
+                            del l.items[i_]
+                            return NONE
+                    raise Raised("ValueError")
+                if name == "sort":
+                    def k_(x):
+                        y = x.items[0] if isinstance(x, TupV) else x
+                        return y.name if isinstance(y, Key) else str(y)
+                    l.items.sort(key=k_)
+                    return NONE
             if t == "builtin":
                 n = f[1]
                 if n in ("float", "int", "abs") and pos and isinstance(pos[0], Rat):
                     if n == "abs":
-                        raise Undecidable("abs of a symbol")
+                        c_ = pos[0].as_const()
+                        if c_ is None:
+                            raise Undecidable("abs of a symbol")
+                        return num(abs(c_))
                     return pos[0]
                 if n == "list":
                     return ListV(self.iterate(pos[0], e)) if pos else ListV()
@@ -658,7 +695,7 @@ class TermAlg:
                 if n == "enumerate":
                     return ListV([TupV([num(i), x]) for i, x in enumerate(self.iterate(pos[0], e))])
                 if n == "str":
-                    return ("str", "?")
+                    return ("str", self.text_of(pos[0])) if pos else ("str", "")
                 if n == "Var":
                     return pos[0]
         if isinstance(f, tuple) and f and f[0] == "builtin" and f[1] == "type":
